@@ -151,6 +151,14 @@ func generate(w *World, prop string, only string) *genResult {
 			}
 			r.obls = append(r.obls, reachDisciplineObl(w, u, rd, i+1))
 		}
+		for i, fz := range u.FrozenDisciplines {
+			if prop != "" && !hasTag(fz.Tags, prop) {
+				continue
+			}
+			if sp := w.pkgs[u.Pkg]; sp != nil {
+				r.obls = append(r.obls, frozenDisciplineObl(w, u, sp, fz, i+1))
+			}
+		}
 		for _, fd := range u.FieldDisciplines {
 			if prop != "" && !hasTag(fd.Tags, prop) {
 				continue
@@ -248,6 +256,105 @@ func fieldDisciplineObl(w *World, u *Unit, sp *ssa.Package, fd FieldDiscipline) 
 	}
 	g := &gen{w: w, declared: map[string]bool{}}
 	return &Obl{Name: fmt.Sprintf("%s#field.%s.%s", u.PkgName, fd.Struct, fd.Field), Func: u.PkgName, Clause: clause, Goal: goal, G: g, Kind: "discipline", Tags: fd.Tags}
+}
+
+// frozenDisciplineObl: for every closure handed to the registrar, the variables it captures by reference
+// are not stored to at any program point that can follow the registration.
+func frozenDisciplineObl(w *World, u *Unit, sp *ssa.Package, fz FrozenDiscipline, n int) *Obl {
+	var offenders []string
+	g0 := &gen{w: w, declared: map[string]bool{}}
+	var visit func(fn *ssa.Function)
+	seen := map[*ssa.Function]bool{}
+	// blocks that can follow `from` without passing through `avoid` (the block that allocates the captured
+	// variable: once it runs again, later stores go to a new variable)
+	reachableFrom := func(from, avoid *ssa.BasicBlock) map[*ssa.BasicBlock]bool {
+		r := map[*ssa.BasicBlock]bool{}
+		stack := append([]*ssa.BasicBlock{}, from.Succs...)
+		for len(stack) > 0 {
+			b := stack[len(stack)-1]
+			stack = stack[:len(stack)-1]
+			if r[b] || (b == avoid && b != from) {
+				continue
+			}
+			r[b] = true
+			stack = append(stack, b.Succs...)
+		}
+		return r
+	}
+	visit = func(fn *ssa.Function) {
+		if fn == nil || seen[fn] {
+			return
+		}
+		seen[fn] = true
+		g0.fn = fn
+		for _, b := range fn.Blocks {
+			for idx, in := range b.Instrs {
+				call, ok := in.(ssa.CallInstruction)
+				if !ok {
+					continue
+				}
+				c := call.Common()
+				full, short := g0.calleeName(c)
+				if full != fz.Registrar && short != fz.Registrar && "("+short+")" != fz.Registrar {
+					continue
+				}
+				for _, a := range c.Args {
+					mc, ok := a.(*ssa.MakeClosure)
+					if !ok {
+						continue
+					}
+					for _, bnd := range mc.Bindings {
+						al, ok := bnd.(*ssa.Alloc)
+						if !ok {
+							continue
+						}
+						after := reachableFrom(b, al.Block())
+						check := func(blk *ssa.BasicBlock, from int) {
+							for j, x := range blk.Instrs {
+								if j < from {
+									continue
+								}
+								if st, ok := x.(*ssa.Store); ok && rootAlloc(st.Addr) == al {
+									offenders = append(offenders, fmt.Sprintf("%s: %s is assigned at %s after a closure capturing it was registered", w.keyOf(fn), al.Comment, w.pos(st.Pos())))
+								}
+							}
+						}
+						check(b, idx+1)
+						for blk := range after {
+							check(blk, 0)
+						}
+					}
+				}
+			}
+		}
+		for _, an := range fn.AnonFuncs {
+			visit(an)
+		}
+	}
+	for _, m := range sp.Members {
+		switch x := m.(type) {
+		case *ssa.Function:
+			visit(x)
+		case *ssa.Type:
+			for _, t := range []types.Type{x.Type(), types.NewPointer(x.Type())} {
+				ms := w.prog.MethodSets.MethodSet(t)
+				for i := 0; i < ms.Len(); i++ {
+					if fn := w.prog.MethodValue(ms.At(i)); fn != nil && fn.Pkg == sp {
+						visit(fn)
+					}
+				}
+			}
+		}
+	}
+	g0.fn, g0.unit = nil, u
+	sort.Strings(offenders)
+	goal := "true"
+	clause := "variables captured by closures handed to " + fz.Registrar + " are not assigned after the registration"
+	if len(offenders) > 0 {
+		goal = "false"
+		clause += "; offenders: " + strings.Join(offenders, "; ")
+	}
+	return &Obl{Name: fmt.Sprintf("%s#captures-frozen#%d", u.PkgName, n), Func: u.PkgName, Clause: clause, Goal: goal, G: g0, Kind: "discipline", Tags: fz.Tags}
 }
 
 // onlyLoaded: the field address is used for loads only
@@ -570,6 +677,13 @@ func main() {
 		if fs.NArg() < 1 {
 			fatal("usage: govc check [flags] <property>")
 		}
+		defer func() {
+			if r := recover(); r != nil {
+				// an engine fault must never look like a pass
+				fmt.Fprintf(os.Stderr, "govc: ENGINE ERROR: internal fault while checking %s: %v\n%s\n", fs.Arg(0), r, debug.Stack())
+				os.Exit(2)
+			}
+		}()
 		os.Exit(cmdCheck(*repo, fs.Arg(0), *tier, *lock, *only, *verbose))
 	case "dump":
 		fs := flag.NewFlagSet("dump", flag.ExitOnError)
